@@ -7,7 +7,7 @@ func init() {
 		"the Go channel runtime, select, close, context cancellation, sync.WaitGroup and the scheduler are MODELLED from their documented semantics (buffered FIFO, rendez-vous as a joint step, any ready select arm may fire, default only if no arm is buffer-ready, send/close on closed panics; WaitGroup.Wait is enabled iff the counter is zero); the claim is 'golem is right if these behave as documented'",
 		"every interleaving of the bounded configuration is a value of the symbolic schedule; claims hold for runs of the stated configurations only (number of inputs, elements per input, capacities)",
 		"a lexicographic partial-order constraint prunes equivalent interleavings (sound: every Mazurkiewicz trace keeps its minimal linearisation; runs may stop early at any step, so every reachable state is represented)",
-		"element values carry the index of their input in the two low bits (assumed in set-up; the remaining 62 bits are free), which is what lets the consumer project the merged stream; the context is never cancelled",
+		"Join is instantiated at int8 (it is parametric in the element type): element values carry the index of their input in the two low bits (by construction), the remaining 6 bits are free, which is what lets the consumer project the merged stream and tell the (at most 2) elements of one input apart; the context is never cancelled",
 		"heap cells shared by several library goroutines and written after set-up are read/written in separate steps (the interpreter makes such loads and stores visible operations), so a lost update between two copier goroutines shows up as a wrong delivered value; there is no general race detector",
 	}, commonAssumptions...)
 	c12Text := "bounded model checking: goroutines of the real code (go/ssa) are turned into control-flow automata by symbolic execution between visible operations; the product is unrolled K steps into one SMT formula whose schedule and inputs are solver variables; K is raised until no run of K non-stutter steps exists (completeness threshold), so Final conditions are statements about all complete runs of the configuration. "
